@@ -102,7 +102,7 @@ def main():
             "guard": "verif",
             "enable": "go build -tags verif (done by ./check for every run)",
             "baseline_off_cmd": "cd /repo && go test -vet=off -count=1 -timeout 25m ./...",
-            "source_commits": ["d6a94f07", "4320b116", "1ec2478b", "2770a211", "cf5a6d8a"],
+            "source_commits": ["630b91f8", "d6a94f07", "4320b116", "1ec2478b", "2770a211", "cf5a6d8a"],
             "add_only": True,
         },
         "engines": [
